@@ -293,10 +293,52 @@ def small_dfas():
     return out
 
 
+def corpus():
+    """Triggers of repaired defects that reach this property (DESIGN.md §8 F1, F19)."""
+    from harness.ops.C05 import corpus as c05_corpus
+    return c05_corpus()
+
+
+def run_corpus(ctx: Ctx):
+    for A in corpus():
+        U = DFA.universal_language(A.input_symbols)
+        for r in (False, True):
+            do_to_partial(ctx, A, r, True, "corpus")
+            do_complement(ctx, A, r, True, "corpus")
+            for opname in OPS:
+                do_binop(ctx, opname, A, U, r, True, "corpus")
+                do_binop(ctx, opname, U, A, r, True, "corpus")
+
+
+def search(ctx: Ctx):
+    """Deeper failing-input search (called when an obligation or the correspondence is broken
+    and run() found no failing input): a larger shaped-random sweep biased to partial operands
+    with dead states and to the minify=True paths."""
+    rng = ctx.rng
+    opts = [(r, m) for r in (False, True) for m in (False, True)]
+    for _ in range(ctx.budget(12000, 60000)):
+        if ctx.n_prop_fails:
+            return
+        al = rng.choice(gen.ALPHABETS)
+        a = gen.rand_dfa(rng, 6, al, partial=True if rng.random() < 0.7 else None)
+        b = gen.rand_dfa(rng, 4, al)
+        r, m = opts[rng.randrange(4)]
+        k = rng.random()
+        if k < 0.4:
+            do_binop(ctx, rng.choice(list(OPS)), a, b, r, True, "search")
+        elif k < 0.6:
+            do_complement(ctx, a, r, True, "search")
+        elif k < 0.9:
+            do_to_partial(ctx, a, r, True, "search")
+        else:
+            do_to_complete(ctx, a, "default", "search")
+
+
 def run(ctx: Ctx):
     rng = ctx.rng
     pool = small_dfas()
     opts = [(r, m) for r in (False, True) for m in (False, True)]
+    run_corpus(ctx)
     # 1. pairs of small DFAs: all of them (thorough) or a seeded slice (quick)
     if ctx.thorough():
         pairs = ((a, b) for a in pool for b in pool)
